@@ -46,14 +46,16 @@ def _run_one(args):
 
 
 def _parse_patch(text):
-    """unified diff -> {repo relative path: [(old block, new block), ...]} (context lines included on both sides)"""
+    """unified diff -> {repo relative path: [(first old line number, old block, new block), ...]} (context lines on both sides)"""
+    import re
     files = {}
     cur = None
+    start = 0
     old, new = [], []
 
     def flush():
         if cur is not None and (old or new):
-            files.setdefault(cur, []).append(('\n'.join(old), '\n'.join(new)))
+            files.setdefault(cur, []).append((start, '\n'.join(old), '\n'.join(new)))
     for line in text.splitlines():
         if line.startswith('+++ '):
             flush()
@@ -65,6 +67,8 @@ def _parse_patch(text):
         elif line.startswith('@@'):
             flush()
             old, new = [], []
+            m = re.match(r'@@ -(\d+)', line)
+            start = int(m.group(1)) if m else 0
         elif cur is not None:
             if line.startswith('+'):
                 new.append(line[1:])
@@ -75,6 +79,23 @@ def _parse_patch(text):
                 new.append(line[1:])
     flush()
     return files
+
+
+def _apply_hunks(src, hunks):
+    """Apply hunks to a source text: at the recorded line when the old block is there, else at its only occurrence."""
+    lines = src.split('\n')
+    shift = 0
+    for start, o, n in hunks:
+        ol, nl = o.split('\n'), n.split('\n')
+        pos = start - 1 + shift
+        if not (0 <= pos and lines[pos:pos + len(ol)] == ol):
+            hits = [i for i in range(len(lines) - len(ol) + 1) if lines[i:i + len(ol)] == ol]
+            if not hits:
+                return None, 0
+            pos = min(hits, key=lambda i: abs(i - pos))        # like git apply: the match nearest to the recorded line
+        lines[pos:pos + len(ol)] = nl
+        shift += len(nl) - len(ol)
+    return '\n'.join(lines), 1
 
 
 def _run_seeded(args):
@@ -95,11 +116,9 @@ def _run_seeded(args):
             m = '.'.join(parts)
             if m not in base.modules:
                 return (name, 'skipped', 'module %s not analysed' % m)
-            src = overrides.get(m, base.modules[m].source)
-            for o, n in hunks:
-                if src.count(o) != 1:
-                    return (name, 'skipped', 'hunk context occurs %d times in %s (tree has moved on)' % (src.count(o), m))
-                src = src.replace(o, n)
+            src, hits = _apply_hunks(overrides.get(m, base.modules[m].source), hunks)
+            if src is None:
+                return (name, 'skipped', 'a hunk matches %d places in %s (tree has moved on)' % (hits, m))
             overrides[m] = src
         prog = Program(overrides=overrides)
         rep = Report(prop, prog)
